@@ -154,8 +154,22 @@ def _b_case(args):
     L = lib().LU
     m, n = int(rng.integers(1, 7)), int(rng.integers(1, 7))
     N = min(m, n)
-    kind = ["gauss", "int", "zero-col", "scaled", "dup-rows", "block-diagonal", "sparse", "graded"][tid % 8]
-    if kind == "block-diagonal":
+    kind = ["gauss", "int", "zero-col", "scaled", "dup-rows", "block-diagonal", "sparse", "graded", "dep-cols", "graded-60"][tid % 10]
+    if kind == "dep-cols" and n >= 2:
+        # a column that is a quaternion multiple of an earlier one, generic entries: elimination leaves ROUNDING NOISE
+        # (not an exact zero) in the pivot position - the documented behaviour there is the loud failure
+        A = rng.standard_normal((m, n, 4))
+        j0 = int(rng.integers(0, n - 1))
+        A[:, j0 + 1:j0 + 2] = omul(A[:, j0:j0 + 1], rng.standard_normal((1, 1, 4)))
+    elif kind == "graded-60":
+        A = rng.standard_normal((m, n, 4))
+        A[:, n // 2:] *= 2.0 ** -60            # trailing columns 2^-60 times smaller than the leading ones
+        A[m // 2:, :] *= 2.0 ** -30
+    elif kind in ("dep-cols",):
+        A = rng.standard_normal((m, n, 4))
+    if kind in ("dep-cols", "graded-60"):
+        pass
+    elif kind == "block-diagonal":
         m = n = int(rng.integers(4, 8))
         N = n
         h = n // 2
